@@ -10,6 +10,7 @@ import (
 	"github.com/jig/lisp/lib/call"
 	"github.com/jig/lisp/types"
 	. "github.com/jig/lisp/types"
+	"github.com/jig/lisp/verifhook"
 )
 
 //go:embed header-concurrent.lisp
@@ -73,6 +74,7 @@ func swap_BANG(ctx context.Context, a ...MalType) (MalType, error) {
 		if e != nil {
 			return nil, e
 		}
+		verifhook.Yield("atom:swap-before-install")
 		atm.Mutex.Lock()
 		if atm.version == version {
 			atm.Set(res)
@@ -162,10 +164,12 @@ func NewFuture(ctx context.Context, fn MalFunc) *Future {
 			}()
 			res, err = Apply(ctx, fn, nil)
 		}()
+		verifhook.Yield("future:body-finished-before-publish")
 		f.mu.Lock()
 		f.res, f.err = res, err
 		f.completed = true
 		f.mu.Unlock()
+		verifhook.Yield("future:published-before-close")
 		close(f.done)
 	}()
 
@@ -175,6 +179,7 @@ func NewFuture(ctx context.Context, fn MalFunc) *Future {
 // Cancel cancels the body's context if the future has not completed yet.
 // It reports whether the future is (now or already) cancelled.
 func (f *Future) Cancel() bool {
+	verifhook.Yield("future:cancel-enter")
 	f.mu.Lock()
 	defer f.mu.Unlock()
 	if !f.completed && !f.cancelled {
@@ -203,6 +208,7 @@ func (f *Future) Deref(ctx context.Context) (MalType, error) {
 	case <-ctx.Done():
 		return nil, errors.New("timeout while dereferencing future")
 	case <-f.done:
+		verifhook.Yield("future:deref-woken")
 		f.mu.Lock()
 		defer f.mu.Unlock()
 		return f.res, f.err
